@@ -19,10 +19,10 @@ import (
 
 type eng struct{}
 
-func (eng) Meta() core.Meta                                     { return Meta() }
-func (eng) Gen(c, tier string) (json.RawMessage, error)         { return Gen(c, tier) }
-func (eng) Run(tape json.RawMessage, res *core.Result)          { run(tape, res) }
-func TestSim(t *testing.T)                                      { engine.Main(t, eng{}) }
+func (eng) Meta() core.Meta                             { return Meta() }
+func (eng) Gen(c, tier string) (json.RawMessage, error) { return Gen(c, tier) }
+func (eng) Run(tape json.RawMessage, res *core.Result)  { run(tape, res) }
+func TestSim(t *testing.T)                              { engine.Main(t, eng{}) }
 
 type rec struct {
 	Task     int    `json:"task"`
